@@ -1154,6 +1154,8 @@ class TokenizerCore:
                 and (end + 1 >= self.size or sql[end + 1] != delimiter or delimiter not in escapes)
                 # no backslash in the string that would need escape processing
                 and (not (unescaped_sequences or "\\" in escapes) or sql.find("\\", pos, end) == -1)
+                # a carriage return is a line break for _advance too: leave those to the slow path
+                and sql.find("\r", pos, end) == -1
             ):
                 newlines = sql.count("\n", pos, end)
                 if newlines:
